@@ -933,10 +933,13 @@ class FixedTupleUnmarshaller(AbstractUnmarshaller[compat.TupleT]):
             val: The input value to unmarshal.
         """
         decoded = serdes.load(val)
-        return self.origin(
+        unmarshalled = self.origin(
             routine(v)
             for routine, v in zip(self.ordered_routines, serdes.itervalues(decoded))
         )
+        if len(unmarshalled) != len(self.ordered_routines):
+            raise ValueError(f"{val!r} has too few members for {self.t!r}")
+        return unmarshalled
 
 
 _ST = tp.TypeVar("_ST")
